@@ -7,6 +7,8 @@
 #include "vf.hpp"
 #include "ref.hpp"
 #include <glm/glm.hpp>
+#include <glm/ext/scalar_common.hpp>
+#include <glm/ext/vector_common.hpp>
 using namespace ref;
 typedef long double LD;
 
@@ -140,6 +142,57 @@ static void k_smoothstep(const V3& in, vf::Ctx& c){
 		judge_tol(c, std::string(form ? "scalar-edges:" : "vec-edges:") + k, "smoothstep:err/bound", got, r, 32 * U32F * r + 4 * DEN); }
 }
 
+// ---- ext/vector_common: fmin/fmax (2-4 operands, vec and vec/scalar forms), min/max 3-4 operands, fclamp, texcoord helpers, iround/uround
+struct V4 { float x[4], y[4], z[4], w[4]; };
+static inline bool is_snan(float x){ return isnan_b(x) && !(fbits(x) & 0x00400000u); }
+static void judge_fm(vf::Ctx& c, const char* form, bool MAX, const float* v, int N, float got){
+	for(int i = 0; i < N; i++) if(is_snan(v[i])){ c.cls("signaling-nan-lane:not-judged"); return; }
+	std::string mask = "nan@"; bool any = false; float want = 0; for(int i = 0; i < N; i++){ if(isnan_b(v[i])){ mask += (char)('a' + i); continue; } want = !any ? v[i] : MAX ? (want < v[i] ? v[i] : want) : (v[i] < want ? v[i] : want); any = true; }
+	if(mask.size() == 4) mask = "no-nan"; c.cls(mask.c_str());
+	if(!any){ if(!isnan_b(got)) c.fail(std::string(form) + ":all-nan:returns-number", vf::show(got), "NaN"); return; }
+	if(isnan_b(got)) c.fail(std::string(form) + ":" + mask + ":returns-nan", got, want); else if(!veq(got, want)) c.fail(std::string(form) + ":" + mask + ":wrong-value", got, want);
+}
+static void judge_mm(vf::Ctx& c, const char* form, bool MAX, const float* v, int N, float got){
+	for(int i = 0; i < N; i++) if(isnan_b(v[i])) return; float want = v[0]; for(int i = 1; i < N; i++) want = MAX ? (want < v[i] ? v[i] : want) : (v[i] < want ? v[i] : want);
+	if(!veq(got, want)) c.fail(std::string(form) + ":wrong-value", got, want);
+}
+static void k_fminmax(const V4& in, vf::Ctx& c){
+	glm::vec4 a = mk(in.x), b = mk(in.y), d = mk(in.z), e = mk(in.w);
+	glm::vec4 f2 = glm::fmin(a, b), f2s = glm::fmin(a, in.y[0]), f3 = glm::fmin(a, b, d), f4 = glm::fmin(a, b, d, e), F2 = glm::fmax(a, b), F2s = glm::fmax(a, in.y[0]), F3 = glm::fmax(a, b, d), F4 = glm::fmax(a, b, d, e);
+	glm::vec4 m3 = glm::min(a, b, d), m4 = glm::min(a, b, d, e), M3 = glm::max(a, b, d), M4 = glm::max(a, b, d, e);
+	for(int l = 0; l < 4; l++){ float v[4] = { in.x[l], in.y[l], in.z[l], in.w[l] }, vs[2] = { in.x[l], in.y[0] };
+		judge_fm(c, "fmin(vec,vec)", false, v, 2, f2[l]); judge_fm(c, "fmin(vec,scalar)", false, vs, 2, f2s[l]); judge_fm(c, "fmin(vec,vec,vec)", false, v, 3, f3[l]); judge_fm(c, "fmin(vec,vec,vec,vec)", false, v, 4, f4[l]);
+		judge_fm(c, "fmax(vec,vec)", true, v, 2, F2[l]); judge_fm(c, "fmax(vec,scalar)", true, vs, 2, F2s[l]); judge_fm(c, "fmax(vec,vec,vec)", true, v, 3, F3[l]); judge_fm(c, "fmax(vec,vec,vec,vec)", true, v, 4, F4[l]);
+		judge_mm(c, "min(vec,vec,vec)", false, v, 3, m3[l]); judge_mm(c, "min(vec,vec,vec,vec)", false, v, 4, m4[l]); judge_mm(c, "max(vec,vec,vec)", true, v, 3, M3[l]); judge_mm(c, "max(vec,vec,vec,vec)", true, v, 4, M4[l]); }
+}
+static void k_fclamp(const V3& in, vf::Ctx& c){
+	glm::vec4 g = glm::fclamp(mk(in.x), mk(in.y), mk(in.z)), gs = glm::fclamp(mk(in.x), in.y[0], in.z[0]);
+	for(int l = 0; l < 4; l++) for(int form = 0; form < 2; form++){ float x = in.x[l], lo = form ? in.y[0] : in.y[l], hi = form ? in.z[0] : in.z[l], got = form ? gs[l] : g[l]; const char* fn = form ? "vec,scalar,scalar" : "vec,vec,vec";
+		if(is_snan(x) || is_snan(lo) || is_snan(hi)){ c.cls("signaling-nan-lane:not-judged"); continue; }
+		std::string mask = "nan@"; if(isnan_b(x)) mask += 'x'; if(isnan_b(lo)) mask += 'l'; if(isnan_b(hi)) mask += 'h'; if(mask.size() == 4) mask = "no-nan"; c.cls(mask.c_str());
+		if(mask == "nan@xlh"){ if(!isnan_b(got)) c.fail(std::string(fn) + ":all-nan:returns-number", vf::show(got), "NaN"); continue; }
+		if(isnan_b(got)){ c.fail(std::string(fn) + ":" + mask + ":returns-nan", vf::show(got), "a number"); continue; }
+		if(!isnan_b(lo) && !isnan_b(hi) && lo > hi) continue;
+		float m = isnan_b(x) ? lo : isnan_b(lo) ? x : (x < lo ? lo : x); float want = isnan_b(m) ? hi : isnan_b(hi) ? m : (hi < m ? hi : m);
+		if(!veq(got, want)) c.fail(std::string(fn) + ":" + mask + ":wrong-value", got, want); }
+}
+static void k_wrap_iround(const V1& in, vf::Ctx& c){
+	glm::vec4 v = mk(in.x); glm::vec4 gc = glm::clamp(v), gr = glm::repeat(v), gmc = glm::mirrorClamp(v), gmr = glm::mirrorRepeat(v);
+	bool dom = true; for(int l = 0; l < 4; l++) if(!(in.x[l] >= 0.0f) || !(in.x[l] <= 2147483520.0f)) dom = false;   // iround/uround: every lane >= 0 (asserted by glm) and representable
+	glm::ivec4 gi(0); glm::uvec4 gu(0); if(dom){ gi = glm::iround(v); gu = glm::uround(v); c.cls("iround-domain"); }
+	for(int l = 0; l < 4; l++){ float x = in.x[l]; if(!fin(x)) continue; const bool wrapdom = !(kSimd && r_abs(x) > 4194304.0f);
+		bool odd; FracCmp f = r_fraccmp(x, odd); float a = r_abs(x), rest = a - r_trunc(a);
+		float wc = x < 0.0f ? 0.0f : x > 1.0f ? 1.0f : x, wr = x - r_floor(x), wmr = odd ? 1.0f - rest : rest;
+		struct { const char* n; float got, want; bool value; } t[4] = { { "clamp", gc[l], wc, true }, { "repeat", gr[l], wr, true }, { "mirrorClamp", gmc[l], 0, false }, { "mirrorRepeat", gmr[l], wmr, true } };
+		if(wrapdom) for(auto& q : t){ if(isnan_b(q.got) || q.got < 0.0f || q.got > 1.0f) c.fail(std::string(q.n) + (isnan_b(q.got) ? ":returns-nan" : ":outside-[0,1]"), vf::show(q.got), "a value in [0,1]"); else if(q.value && !veq(q.got, q.want)) c.fail(std::string(q.n) + ":not-the-wrap-mode-value", q.got, q.want); }
+		if(dom){ long long tr = (long long)r_trunc(x), w1 = (f == FC_ABOVE || f == FC_TIE) ? tr + 1 : tr, w2 = f == FC_TIE ? tr : w1;
+			std::string k = x < 0.5f ? "0<x<0.5" : x < 1.0f ? "0.5<x<1" : std::string(f == FC_INT ? (odd ? "odd-integer" : "even-integer") : f == FC_BELOW ? "frac<0.5" : "frac>0.5") + (uexp(x) >= 23 ? ":x>=2^23" : ":x<2^23");
+			long long i = gi[l], u = gu[l];
+			if(i != w1 && i != w2) c.fail("iround:" + k + (i == w1 + 1 ? ":returns-nearest+1" : i == w1 - 1 ? ":returns-nearest-1" : ":returns-other"), i, w1);
+			if(u != w1 && u != w2) c.fail("uround:" + k + (u == w1 + 1 ? ":returns-nearest+1" : u == w1 - 1 ? ":returns-nearest-1" : ":returns-other"), u, w1); }
+	}
+}
+
 VF_OP(floor_vec4, V1, "ffff"){ k_rounding<K_FLOOR>(in, c); }
 VF_OP(ceil_vec4, V1, "ffff"){ k_rounding<K_CEIL>(in, c); }
 VF_OP(trunc_vec4, V1, "ffff"){ k_rounding<K_TRUNC>(in, c); }
@@ -152,6 +205,9 @@ VF_OP(min_max_step_vec4, V2, "ffffffff"){ k_minmaxstep(in, c); }
 VF_OP(clamp_vec4, V3, "ffffffffffff"){ k_clamp(in, c); }
 VF_OP(mix_vec4, V3, "ffffffffffff"){ k_mix(in, c); }
 VF_OP(smoothstep_vec4, V3, "ffffffffffff"){ k_smoothstep(in, c); }
+VF_OP(fclamp_vec4, V3, "ffffffffffff"){ k_fclamp(in, c); }
+VF_OP(wrap_iround_vec4, V1, "ffff"){ k_wrap_iround(in, c); }
+VF_OP(fmin_fmax_min_max_vec4, V4, "ffffffffffffffff"){ k_fminmax(in, c); }
 
 static float rnd_lane(vf::Rng& r, const std::vector<float>& L){
 	switch(r.below(7)){
@@ -175,13 +231,16 @@ static void workload(){
 	const u64 n = L.size();
 	bool w[12]; vf::Op* ops[12] = { &floor_vec4, &ceil_vec4, &trunc_vec4, &round_vec4, &roundEven_vec4, &fract_vec4, &abs_sign_vec4, &mod_vec4, &min_max_step_vec4, &clamp_vec4, &mix_vec4, &smoothstep_vec4 };
 	for(int i = 0; i < 12; i++) w[i] = vf::want(*ops[i]);
-	auto un = [&](vf::Ctx& c, const V1& v){ for(int i = 0; i < 7; i++) if(w[i]) vf::run(c, *ops[i], v); };
+	const bool w_wrap = vf::want(wrap_iround_vec4), w_fclamp = vf::want(fclamp_vec4), w_fm = vf::want(fmin_fmax_min_max_vec4);
+	auto un = [&](vf::Ctx& c, const V1& v){ for(int i = 0; i < 7; i++) if(w[i]) vf::run(c, *ops[i], v); if(w_wrap){ vf::run(c, wrap_iround_vec4, v); V1 p; for(int l = 0; l < 4; l++) p.x[l] = r_abs(v.x[l]); vf::run(c, wrap_iround_vec4, p); } };
 	auto bi = [&](vf::Ctx& c, const V2& v){ for(int i = 7; i < 9; i++) if(w[i]) vf::run(c, *ops[i], v); };
-	auto te = [&](vf::Ctx& c, const V3& v){ for(int i = 9; i < 12; i++) if(w[i]) vf::run(c, *ops[i], v); };
+	auto te = [&](vf::Ctx& c, const V3& v){ for(int i = 9; i < 12; i++) if(w[i]) vf::run(c, *ops[i], v); if(w_fclamp) vf::run(c, fclamp_vec4, v); };
+	auto qu = [&](vf::Ctx& c, const V4& v){ if(w_fm) vf::run(c, fmin_fmax_min_max_vec4, v); };
 	// lattice: every value in every lane, a different value in each lane; the same value in all four lanes
 	vf::sweep("lat1", n * 4, 16, [&](vf::Ctx& c, u64 lo, u64 hi){ for(u64 i = lo; i < hi; i++){ u64 k = i / 4; int rot = (int)(i % 4); V1 v; for(int l = 0; l < 4; l++) v.x[(l + rot) % 4] = L[(k + 7 * l) % n]; un(c, v); if(rot == 0){ V1 s; for(int l = 0; l < 4; l++) s.x[l] = L[k]; un(c, s); } } });
 	vf::sweep("lat2", n * n, 64, [&](vf::Ctx& c, u64 lo, u64 hi){ for(u64 i = lo; i < hi; i++){ u64 a = i / n, b = i % n; V2 v; for(int l = 0; l < 4; l++){ v.x[l] = L[(a + 5 * l) % n]; v.y[l] = L[(b + 11 * l) % n]; } bi(c, v);
-		V3 t; for(int l = 0; l < 4; l++){ t.x[l] = v.x[l]; t.y[l] = v.y[l]; t.z[l] = L[(a * 31 + b * 17 + 3 * l) % n]; } if(t.x[0] > t.y[0]) std::swap(t.x[0], t.y[0]); te(c, t); } });
+		V3 t; for(int l = 0; l < 4; l++){ t.x[l] = v.x[l]; t.y[l] = v.y[l]; t.z[l] = L[(a * 31 + b * 17 + 3 * l) % n]; } if(t.x[0] > t.y[0]) std::swap(t.x[0], t.y[0]); te(c, t);
+		V4 q; for(int l = 0; l < 4; l++){ q.x[l] = v.x[l]; q.y[l] = v.y[l]; q.z[l] = t.z[l]; q.w[l] = L[(a * 13 + b * 29 + 7 * l + 1) % n]; } qu(c, q); } });
 	const u64 N = vf::N(1000000, 30000000);
 	vf::parallel("rnd", [&](int tid, int T, vf::Ctx& c){ for(u64 i = tid; i < N; i += T){
 		V1 v; for(int l = 0; l < 4; l++) v.x[l] = rnd_lane(c.rng, L); un(c, v);
@@ -189,6 +248,8 @@ static void workload(){
 		if(c.rng.coin()) for(int l = 0; l < 4; l++){ b.y[l] = (float)((double)c.rng.range(-8, 8) * 0.25); if(b.y[l] == 0.0f) b.y[l] = 1.5f; }   // simple divisors: integer quotients are common
 		bi(c, b);
 		V3 t; for(int l = 0; l < 4; l++){ t.x[l] = rnd_lane(c.rng, L); t.y[l] = rnd_lane(c.rng, L); t.z[l] = rnd_lane(c.rng, L); if(c.rng.coin() && !isnan_b(t.x[l]) && !isnan_b(t.y[l]) && t.x[l] > t.y[l]) std::swap(t.x[l], t.y[l]); }
-		te(c, t); } });
+		te(c, t);
+		V4 q; float nanv = bitsf(0x7fc00000u); for(int l = 0; l < 4; l++){ float* f[4] = { &q.x[l], &q.y[l], &q.z[l], &q.w[l] }; unsigned m = (unsigned)c.rng.below(16); for(int k = 0; k < 4; k++) *f[k] = (c.rng.coin() && ((m >> k) & 1)) ? (c.rng.coin() ? nanv : -nanv) : rnd_lane(c.rng, L); }
+		qu(c, q); } });
 }
 VF_MAIN("C11_vec4")
